@@ -445,7 +445,7 @@ def ob_log_add_contract(bits, width, depth, timeout_ms):
 # ------------------------------------------------------------------------------------------- obligations for C05
 def c05_obligations(tier):
     b = C05_BOUNDS[tier]
-    tmo = 240000 if tier == "quick" else 900000
+    tmo = 900000 if tier == "quick" else 1800000
     obs = []
     for bits in (8, 16):
         for (w, d) in b["contract_shapes(width,depth)"]:
